@@ -37,7 +37,7 @@ def rand_opts(R):
 
 
 def generate(R, tier):
-    n = 5000 if tier == "quick" else 500000
+    n = 10000 if tier == "quick" else 500000
     top = 2000 if tier == "quick" else 65535
     for mss in range(1, top + 1):
         v = 4 if mss % 2 else 6
